@@ -118,7 +118,8 @@ def render_input(rng, g, toks, ws="none"):
 
 
 def bnf_cases(rng, n_grammars, tts=("LALR", "LALR_PAGER"), algo="LR", max_len=4, n_sent=8, n_mut=8,
-              partial=("0",), ws=("none",), gen_kw=None, glr_scope=False, extra_settings=None):
+              partial=("0",), ws=("none",), gen_kw=None, glr_scope=False, extra_settings=None, annot=False,
+              allow_cyclic=False):
     cases = []
     tries = 0
     while len(cases) < n_grammars * len(tts) and tries < n_grammars * 50:
@@ -127,6 +128,8 @@ def bnf_cases(rng, n_grammars, tts=("LALR", "LALR_PAGER"), algo="LR", max_len=4,
         if g.undefined_symbols() or not g.all_productive():
             continue
         if glr_scope and not g.in_glr_scope():
+            continue
+        if not allow_cyclic and g.is_cyclic():
             continue
         alphabet = list(g.terms.keys())
         strings = []
@@ -150,11 +153,15 @@ def bnf_cases(rng, n_grammars, tts=("LALR", "LALR_PAGER"), algo="LR", max_len=4,
                 add(s, "sentence")
                 for _ in range(max(1, n_mut // max(1, n_sent))):
                     add(mutate(rng, s, alphabet), "mutation")
+        if annot:
+            from gram import annotate
+            g = annotate(rng, g)
         text = g.render()
         for tt in tts:
             st = [algo, tt, "-", "-", "-", "-", "-", "-", "-", "-"]
             if extra_settings:
-                for k, v in extra_settings.items():
+                es = extra_settings(rng) if callable(extra_settings) else extra_settings
+                for k, v in es.items():
                     st[k] = v
             inputs = []
             for toks, kind in strings:
@@ -167,3 +174,113 @@ def bnf_cases(rng, n_grammars, tts=("LALR", "LALR_PAGER"), algo="LR", max_len=4,
 
 def tokens_of_tree(t):
     return [l["kind"] for l in tp.leaves(t)]
+
+
+# --------------------------------------------------------------------------------------------
+# shared evaluation: correspondence + oracle + reporting
+# --------------------------------------------------------------------------------------------
+
+def evaluate(rep, cases, oracle, proofs_ok, prop_module, corr_name="corr:lr", in_scope=None,
+             known_class=None, compare_model=True, max_report=3):
+    """oracle(case) -> list of (input index or None, why) property failures on IMPLEMENTATION output.
+    in_scope(case) -> bool (after dump); known_class(case, k, why) -> finding key or None."""
+    corr_breaks = []
+    failures = []
+    distinct = set()
+    for c in cases:
+        if c.dump is None:
+            rep.count("grammar_rejected:" + " ".join(c.dump_ans.split(" ")[1:3]))
+            continue
+        if in_scope and not in_scope(c):
+            rep.count("out_of_scope")
+            continue
+        rep.count("grammars_in_scope:" + " ".join(c.settings[:2]))
+        for (k, why) in oracle(c):
+            key = known_class(c, k, why) if known_class else None
+            if key:
+                rep.count("known:" + key)
+            else:
+                failures.append((c, k, why))
+        if compare_model:
+            for k, (r, m) in enumerate(zip(c.results, c.model)):
+                rep.count("impl_class:" + klass(r))
+                if klass(r).startswith("skipped"):
+                    continue
+                rep.count("correspondence_compared")
+                if not same_answer(r, m):
+                    corr_breaks.append((c, k))
+                distinct.add((c.text, " ".join(c.settings), c.inputs[k][2], c.inputs[k][1]))
+        else:
+            for k in range(len(c.results)):
+                distinct.add((c.text, " ".join(c.settings), c.inputs[k][2], c.inputs[k][1]))
+    rep.counters["distinct_nontrivial"] = len(distinct)
+    rep.counters["evaluations"] = rep.counters.get("evaluations", 0) or len(distinct)
+    shown = 0
+    for c in cases:
+        if c.dump is not None and c.results and shown < 3:
+            k = len(c.inputs) // 2
+            rep.sample({"grammar": c.text, "settings": " ".join(c.settings), "input": c.inputs[k][2],
+                        "impl": c.results[k][:300]})
+            shown += 1
+
+    def size(f):
+        c, k, _ = f
+        return (len(c.text), len(c.inputs[k][2]) if k is not None else 0)
+    failures.sort(key=size)
+    for c, k, why in failures[:max_report]:
+        rep.violation(dict(c.describe(k), why=why, kind="impl!=oracle"))
+    if not failures:
+        if corr_breaks:
+            c, k = min(corr_breaks, key=lambda f: (len(f[0].text), len(f[0].inputs[f[1]][2])))
+            rep.violation(dict(c.describe(k),
+                               why=f"correspondence {corr_name} broken (Lean model != real runtime); the property "
+                                   f"oracle found no failing input",
+                               kind="impl!=model", n_breaks=len(corr_breaks)), no_input=True)
+        elif not proofs_ok:
+            rep.violation({"why": f"Lean obligations of {prop_module} no longer check",
+                           "obligations": [o for o in rep.obligations if not o[1]]}, no_input=True)
+    rep.counters["corr_breaks"] = len(corr_breaks)
+    rep.counters["oracle_failures"] = len(failures)
+    return failures, corr_breaks
+
+
+def grammar_symbols(d):
+    """(prods as (lhs, rhs), nterms) from a parsed dump"""
+    return [(p["lhs"], p["rhs"]) for p in d["prods"]], d["nterms"]
+
+
+def rec_string(d, kind):
+    """declared string recognizer of terminal `kind` (None for regex / STOP)"""
+    r = d["terms"][kind]["rec"]
+    if r.startswith("S:"):
+        return unhx(r[2:]).decode()
+    return None
+
+
+def parse_bnf(text):
+    """inverse of Gram.render for replay files (no meta-data needed for the oracle)"""
+    import re
+    prods = []
+    terms = {}
+    mode = "rules"
+    text = re.sub(r"\{[^}]*\}", "", text)
+    for stmt in text.replace("\n", " ").split(";"):
+        stmt = stmt.strip()
+        if stmt.startswith("terminals"):
+            mode = "terms"
+            stmt = stmt[len("terminals"):].strip()
+        if not stmt:
+            continue
+        l, r = stmt.split(":", 1)
+        if mode == "rules":
+            for alt in r.split("|"):
+                syms = [s for s in alt.split() if s != "EMPTY"]
+                prods.append((l.strip(), syms))
+        else:
+            terms[l.strip()] = r.strip().strip("'")
+    return Gram(prods, terms)
+
+
+def toks_of_input(g, inp):
+    inv = {c: t for t, c in g.terms.items()}
+    return [inv[ch] for ch in inp if ch in inv]
